@@ -102,6 +102,20 @@ pub fn suite(ctx: &mut Ctx) {
                         ("trailing_slash", b"s/link/"),
                         ("intermediate", b"s/link/f"),
                     ] {
+                        // following lookups at every position; at the trailing position also the operations that look at
+                        // the link without following it (never restricted by the kernel, whatever the ownership)
+                        let opsv: Vec<ops::Op> = if position == "trailing" {
+                            vec![
+                                ops::Op::Resolve { path: path.to_vec(), nofollow: false },
+                                ops::Op::Resolve { path: path.to_vec(), nofollow: true },
+                                ops::Op::Readlink { path: path.to_vec() },
+                                ops::Op::OpenSubpath { path: path.to_vec(), flags: libc::O_PATH | libc::O_NOFOLLOW },
+                                ops::Op::OpenSubpath { path: path.to_vec(), flags: libc::O_RDONLY | libc::O_DIRECTORY },
+                            ]
+                        } else {
+                            vec![ops::Op::Resolve { path: path.to_vec(), nofollow: false }]
+                        };
+                        for op in opsv {
                         for emulated in [true, false] {
                             n += 1;
                             let id = format!("p{n}{}", if emulated { "e" } else { "k" });
@@ -114,7 +128,7 @@ pub fn suite(ctx: &mut Ctx) {
                                     }
                                 };
                                 root.verif_set_emulated(emulated);
-                                let op = ops::Op::Resolve { path: path.to_vec(), nofollow: false };
+                                let op = op.clone();
                                 let mut s = String::new();
                                 s.push_str(&format!("case {id}\nmeta seed=0 suite=c15 dir_mode={dir_mode:o} dir_uid={dir_uid} link_uid={link_uid} caller={caller} position={position}\n"));
                                 s.push_str(&format!("tree {}\n", spec.entries.len()));
@@ -144,6 +158,7 @@ pub fn suite(ctx: &mut Ctx) {
                                 let _ = root.as_fd();
                             });
                             ctx.out.write_all(&out).unwrap();
+                        }
                         }
                     }
                 }
